@@ -6,10 +6,10 @@ package rig
 
 import (
 	"context"
-	"strings"
 	"fmt"
 	"net"
 	"sort"
+	"strings"
 	"sync"
 	"sync/atomic"
 	"time"
@@ -50,11 +50,11 @@ type EEntry struct {
 
 // QEntry is one Qos module entry (appQERLookup, sessionQERLookup, sliceMeter).
 type QEntry struct {
-	Fields                       []uint64
+	Fields                        []uint64
 	Gate, Cir, Pir, Cbs, Pbs, Ebs uint64
-	Values                       []uint64
-	DeductLen                    int64 // -1 when absent
-	Seq                          int64
+	Values                        []uint64
+	DeductLen                     int64 // -1 when absent
+	Seq                           int64
 }
 
 // Cmd is one logged ModuleCommand.
@@ -203,7 +203,7 @@ func (b *Bessd) Restart() error {
 type connCounter struct{ b *Bessd }
 
 func (c *connCounter) TagRPC(ctx context.Context, _ *stats.RPCTagInfo) context.Context { return ctx }
-func (c *connCounter) HandleRPC(context.Context, stats.RPCStats)                      {}
+func (c *connCounter) HandleRPC(context.Context, stats.RPCStats)                       {}
 func (c *connCounter) TagConn(ctx context.Context, _ *stats.ConnTagInfo) context.Context {
 	return ctx
 }
